@@ -7,7 +7,7 @@
     loop of `process_patch`), `map_normNl_id`, `splitLines_linesText`, `splitLines_diffText`, `flatMap_hunkLines_first`;
   * parse: `parse_diffLines` (header scan + body parse of filler ++ header ++ hunks, as one statement);
   * `validB_sound` (the executable check of `Valid` implies `Valid`);
-  * driver: `run_finalizeDeferred_nil`, `sectionLoop_one`, `run_processPatchM` (closed form of `processPatchM` given the
+  * driver: `run_finalizeDeferred_nil`, `sectionLoop_one`, `run_processPatchM(_readable, _unreadable)` (closed form of `processPatchM` given the
     closed form of its section loop), `runPatch_of_run`;
   * a section without file operand: `run_guessFilepath_old`, `GuessSection`, tactic `guess_run`, `processSection_guess(_dry)`.
 -/
@@ -288,10 +288,13 @@ theorem diffFormat_plain (o : Options) (hc : o.asContext = false) (hn : o.asNorm
   split <;> rfl
 
 /-- `process_patch` with the patch read from a regular file in the tree (`-i pname`), no `-d`: the closed form of the
-    section loop on the lines of that file is the closed form of the whole -/
-theorem run_processPatchM (o : Options) (s0 s' : DState) (pname ptext : Bytes) (pm : Nat) (fmt : Format)
+    section loop on the lines of that file is the closed form of the whole.  The patch file is opened for reading only: root,
+    or the owner-read bit of its mode, is all that is asked (CHANGED with the model change "the patch is only read": `-i` of a
+    read-only file used to fail for want of the write bit) -/
+theorem run_processPatchM_readable (o : Options) (s0 s' : DState) (pname ptext : Bytes) (pm : Nat) (fmt : Format)
     (hdir : o.directory = []) (hpf : o.patchFile = pname) (hpne : pname ≠ []) (hpd : pname ≠ [45])
-    (hcwd : s0.cwd = []) (hfile : s0.fs.lookup pname = some (.file ptext pm)) (hroot : s0.fs.isRoot = true)
+    (hcwd : s0.cwd = []) (hfile : s0.fs.lookup pname = some (.file ptext pm))
+    (hread : s0.fs.isRoot = true ∨ pm / 256 % 2 = 1)
     (hfmt : diffFormatFromOptions o = .ok fmt)
     (hloop : (sectionLoop o fmt ((splitLines ptext).length + 2)).run { s0 with par := { s := { rest := splitLines ptext } } }
       = (.ok (), s'))
@@ -302,10 +305,40 @@ theorem run_processPatchM (o : Options) (s0 s' : DState) (pname ptext : Bytes) (
     | nil => exact absurd rfl hpne
     | cons _ _ => rfl
   have hpd' : (pname == [45]) = false := by simpa using hpd
+  have hr : (s0.fs.isRoot || pm / 256 % 2 == 1) = true := by
+    rcases hread with h | h <;> simp [h]
   unfold processPatchM
   simp only [hdir, List.isEmpty_nil, Bool.not_true, Bool.false_eq_true, if_false, ↓run_bind, ↓run_get, ↓run_pure, hpf,
-    hpe, hpd', Bool.or_false, absPath_nil hcwd, Fs.stat_of_file hfile, hroot, Bool.true_or, if_true, ↓run_liftE, hfmt,
+    hpe, hpd', Bool.or_false, absPath_nil hcwd, Fs.stat_of_file hfile, hr, if_true, ↓run_liftE, hfmt,
     ↓run_modify, hloop, run_finalizeDeferred_nil o s' hdw hdr]
+
+/-- the same for root (the form used by `C01_run`) -/
+theorem run_processPatchM (o : Options) (s0 s' : DState) (pname ptext : Bytes) (pm : Nat) (fmt : Format)
+    (hdir : o.directory = []) (hpf : o.patchFile = pname) (hpne : pname ≠ []) (hpd : pname ≠ [45])
+    (hcwd : s0.cwd = []) (hfile : s0.fs.lookup pname = some (.file ptext pm)) (hroot : s0.fs.isRoot = true)
+    (hfmt : diffFormatFromOptions o = .ok fmt)
+    (hloop : (sectionLoop o fmt ((splitLines ptext).length + 2)).run { s0 with par := { s := { rest := splitLines ptext } } }
+      = (.ok (), s'))
+    (hdw : s'.dWrites = []) (hdr : s'.dRemovals = []) :
+    (processPatchM o).run s0 = (.ok (), s') :=
+  run_processPatchM_readable o s0 s' pname ptext pm fmt hdir hpf hpne hpd hcwd hfile (.inl hroot) hfmt hloop hdw hdr
+
+/-- a patch file that its owner may not read (and the user is not root) cannot be opened: `std::system_error` before anything
+    is done (exit status 2, state untouched) -/
+theorem run_processPatchM_unreadable (o : Options) (s0 : DState) (pname ptext : Bytes) (pm : Nat)
+    (hdir : o.directory = []) (hpf : o.patchFile = pname) (hpne : pname ≠ []) (hpd : pname ≠ [45])
+    (hcwd : s0.cwd = []) (hfile : s0.fs.lookup pname = some (.file ptext pm))
+    (hroot : s0.fs.isRoot = false) (hmode : pm / 256 % 2 ≠ 1) :
+    (processPatchM o).run s0 = (.error .systemError, s0) := by
+  have hpe : pname.isEmpty = false := by
+    cases pname with
+    | nil => exact absurd rfl hpne
+    | cons _ _ => rfl
+  have hpd' : (pname == [45]) = false := by simpa using hpd
+  have hr : (s0.fs.isRoot || pm / 256 % 2 == 1) = false := by simp [hroot, hmode]
+  unfold processPatchM
+  simp only [hdir, List.isEmpty_nil, Bool.not_true, Bool.false_eq_true, if_false, ↓run_bind, ↓run_get, hpf,
+    hpe, hpd', Bool.or_false, absPath_nil hcwd, Fs.stat_of_file hfile, hr, ↓run_throw]
 
 /-- `main` after option parsing, given the closed form of `process_patch` -/
 theorem runPatch_of_run (o : Options) (s0 s' : DState) (hh : o.showHelp = false) (hv : o.showVersion = false)
@@ -402,7 +435,8 @@ macro_rules | `(tactic| guess_run [$ls,*]) => `(tactic| (
     Bool.false_eq_true, ↓reduceIte, Bool.false_and, Bool.and_false, Bool.not_true, Bool.not_false,
     Bool.or_false, Bool.false_or, Bool.and_true, Bool.true_and,
     run_createTemp, H.noFault, H.cwd,
-    run_fsExists_file (b := bytes) (m := m), run_fsIsRegular_file (b := bytes) (m := m), H.file,
+    run_fsExists_file (b := bytes) (m := m), run_fsIsRegular_file (b := bytes) (m := m),
+    run_fsIsSymlink_file (b := bytes) (m := m), H.file,
     (fun s' => @run_fixPermissions_writable o s' p bytes m), H.writable, ne_eq, not_false_eq_true,
     absPath_nil, readFile_root (b := bytes) (m := m), H.root,
     H.pre,
